@@ -61,6 +61,9 @@ class FixEmptySequenceComparison(
                                     else cst.UnaryOperation(
                                         operator=cst.Not(),
                                         expression=comp_var,
+                                        # `1 + (x == [])` must stay `1 + (not x)`
+                                        lpar=original_node.lpar,
+                                        rpar=original_node.rpar,
                                     )
                                 )
 
